@@ -426,7 +426,7 @@ def classify(i, res):
 
 def run(ctx):
     rng = ctx.rng
-    n = ctx.budget(170, 2400)
+    n = ctx.budget(170, 2000)
     cases, seen = [], set()
     corpus = [c["case"] if "case" in c else c for c in ctx.corpus()]
     for c in corpus:
